@@ -442,6 +442,17 @@ def mon_c10(sn):
             r = api_revs.get(n)
             if r is not None and r["owner"] is not None and r["owner"].get("controller", True) and r["owner"]["uid"] != s["uid"]:
                 bad.append("%s of ControllerRevision %s controlled by %s/%s" % (v, n, r["owner"]["kind"], r["owner"]["name"]))
+            if v == "update" and r is not None and not r.get("labels_nil") and c.get("labels") is not None:
+                # an update of a stored revision (label sync, renumbering) keeps the labels it had: its hash label and its
+                # upgrade marker (the template labels may be added)
+                keep = []
+                if r.get("hashlabel") is not None:
+                    keep.append("controller.kubernetes.io/hash=%s" % r["hashlabel"])
+                if r.get("marker") is not None:
+                    keep.append("apps.pingcap.com/upgrade-to-asts=%s" % r["marker"])
+                lost = [k for k in keep if k not in c["labels"]]
+                if lost:
+                    bad.append("update of ControllerRevision %s dropped its label(s) %s" % (n, lost))
             if v == "patch":
                 if not got_ok:
                     bad.append("revision %s adopted without a preceding successful fresh GET of the set" % n)
